@@ -235,6 +235,7 @@ func (c *cramSrv) Step(resp []byte, has bool) StepOut {
 type xoauthSrv struct {
 	a      AuthCfg
 	failed bool
+	asked  bool
 }
 
 func (x *xoauthSrv) Cancelled() {}
@@ -244,7 +245,13 @@ func (x *xoauthSrv) Step(resp []byte, has bool) StepOut {
 		return StepOut{Done: true, Reason: "bad credentials"}
 	}
 	if !has {
-		return StepOut{Done: true, Reason: "XOAUTH2 needs an initial response"}
+		// RFC 4954 section 4: without an initial response the server asks for it with an empty
+		// challenge (once)
+		if x.asked {
+			return StepOut{Done: true, Reason: "XOAUTH2: no response to the empty challenge"}
+		}
+		x.asked = true
+		return StepOut{Challenge: nil}
 	}
 	want := "user=" + x.a.User + "\x01auth=Bearer " + x.a.Pass + "\x01\x01"
 	s := string(resp)
